@@ -2,8 +2,15 @@
    assigned_retry_step (ProofsRetry6.v) read through workers_tasks_inverse (k_task w = Some T <-> t_worker T = Some w for
    registered workers, in reachable states). *)
 From Coq Require Import Lia.
-From VF Require Export Sched.ProofsRetry6 Sched.ProofsMon2.
+From VF Require Export Sched.ProofsRetry6 Sched.ProofsC01.
 Open Scope Z_scope.
+
+Lemma run_snoc_fst' : forall l e s, fst (run s (l ++ [e])) = fst (step (fst (run s l)) e).
+Proof.
+  induction l as [|x l IH]; intros e s; cbn [app run fst].
+  - destruct (step s e) as [s1 o]. reflexivity.
+  - destruct (step s x) as [s1 o]. specialize (IH e s1). destruct (run s1 (l ++ [e])) as [s2 os]. destruct (run s1 l) as [s3 os3]. exact IH.
+Qed.
 
 Lemma no_phantom_prefix : forall l1 l2, no_phantom_sync (l1 ++ l2) -> no_phantom_sync l1.
 Proof. intros l1 l2 H c a t h Hin. apply (H c a t h). apply in_or_app. left. exact Hin. Qed.
@@ -20,7 +27,7 @@ Theorem held_retry_step : forall cfg t0 evs eh, no_phantom_sync (evs ++ [eh]) ->
      (is_sync (fst eh) = true /\ t_retry (get_task s' T) = 1%nat)).
 Proof.
   intros cfg t0 evs eh Hnp s s' w T Hex Hk.
-  pose proof (workers_tasks_inverse cfg t0 (evs ++ [eh]) Hnp) as [Ha' Hb']. cbv zeta in Ha', Hb'. rewrite run_snoc_fst in Ha', Hb'. fold s in Ha', Hb'. fold s' in Ha', Hb'.
+  pose proof (workers_tasks_inverse cfg t0 (evs ++ [eh]) Hnp) as [Ha' Hb']. cbv zeta in Ha', Hb'. rewrite run_snoc_fst' in Ha', Hb'. fold s in Ha', Hb'. fold s' in Ha', Hb'.
   pose proof (workers_tasks_inverse cfg t0 evs (no_phantom_prefix _ _ Hnp)) as [Ha Hb]. cbv zeta in Ha, Hb. fold s in Ha, Hb.
   pose proof (Hb' w T Hex Hk) as Hw'. destruct (Ha' T w Hw') as [_ [_ [_ Hr']]]. split; [exact Hr'|].
   destruct (is_sync (fst eh)) eqn:Es.
